@@ -1783,3 +1783,13 @@ Lemma served_is_cached name l en : served name l = Some en -> In en l /\ c_name 
 Proof.
   unfold served. intros H. apply find_some in H. destruct H as [I E]. apply Z.eqb_eq in E. auto.
 Qed.
+
+(** S3' holds of the model: what it persisted for [c] is what it loads for [c] *)
+Theorem own_reuse_holds s c m dis e now :
+  own_reuse (sget (c_id c) (stor s)) c dis e now (snd (step s (OCache c m dis e now))) = true.
+Proof.
+  unfold own_reuse.
+  destruct (reusable c now (sget (c_id c) (stor s)) && negb (e_load_err e) && negb dis) eqn:Prem; [|reflexivity].
+  cbn [negb orb step snd]. unfold call_of. cbn [find_call find cl_cert]. rewrite Z.eqb_refl. cbn [cl_seen].
+  rewrite (reusable_not_seen _ _ _ _ _ _ Prem). reflexivity.
+Qed.
